@@ -19,7 +19,16 @@
                or from two inserted values ("$$G1" with G1 = "MTX_QUERY")
 
    Layer 1 (L1) follows the code: a chain of strings.ReplaceAll, group indices descending, then
-   $MTX_QUERY (source); $MTX_PATH first, then groups descending (destination).              *)
+   $MTX_QUERY (source); $MTX_PATH first, then groups descending (destination).
+
+   Life cycle of a static source handler (LifeStep / LifeExp, used by TemplateLife.tla and
+   TraceTemplate.tla): the substitution is not only a function, it is applied by a long-lived
+   object. The statement's "$MTX_QUERY by the client query" means the query of the client that
+   caused THIS start, and the template is the one in force when the source instance is
+   (re)created. Every Run of the source instance must therefore receive
+       Subst(template in force, capture groups of the path, query of that start)
+   whatever happened before on the same handler (earlier starts with other queries, retries,
+   configuration reloads while running / while retrying / while stopped).                   *)
 EXTENDS VerifCommon, Wild
 
 CONSTANTS MaxPieces,        \* templates are concatenations of 0..MaxPieces pieces
@@ -107,6 +116,40 @@ ReplaceGroups(s, e, i) ==
 L1(t, e) ==
     IF e.site = "source" THEN ReplaceAll(ReplaceGroups(t, e, e.n), QueryTok, e.query)
     ELSE ReplaceGroups(ReplaceAll(t, PathTok, e.path), e, e.n)
+
+\* ------------------------------------------------------------------ life cycle of a source handler
+\* ops: [k |-> "Start", v |-> query]   the path starts the source (on demand: v = query of the client)
+\*      [k |-> "Stop",  v |-> <<>>]
+\*      [k |-> "Reload", v |-> template] a configuration reload changes the source template
+\*      [k |-> "Fail",  v |-> <<>>]    the running instance returns an error (handler waits retryPause)
+\*      [k |-> "Retry", v |-> <<>>]    the retry pause is over: the instance is created again
+\* state: template in force, running, retrying, query of the current start, and for every Run of
+\* the instance so far the (template, query) it has to be resolved from
+LifeInit(t) == [tmpl |-> t, running |-> FALSE, retrying |-> FALSE, query |-> <<>>, runs |-> <<>>]
+LifeEnabled(s, op) ==
+    CASE op.k = "Start"  -> ~s.running
+      [] op.k = "Stop"   -> s.running
+      [] op.k = "Reload" -> TRUE
+      [] op.k = "Fail"   -> s.running /\ ~s.retrying
+      [] op.k = "Retry"  -> s.running /\ s.retrying
+LifeStep(s, op) ==
+    CASE op.k = "Start"  -> [s EXCEPT !.running = TRUE, !.query = op.v,
+                                      !.runs = Append(@, [tmpl |-> s.tmpl, query |-> op.v])]
+      [] op.k = "Stop"   -> [s EXCEPT !.running = FALSE, !.retrying = FALSE]
+      [] op.k = "Reload" -> [s EXCEPT !.tmpl = op.v]
+      [] op.k = "Fail"   -> [s EXCEPT !.retrying = TRUE]
+      [] op.k = "Retry"  -> [s EXCEPT !.retrying = FALSE,
+                                      !.runs = Append(@, [tmpl |-> s.tmpl, query |-> s.query])]
+RECURSIVE LifeFold(_, _, _)
+LifeFold(s, ops, i) == IF i > Len(ops) THEN s ELSE LifeFold(LifeStep(s, ops[i]), ops, i + 1)
+
+SourceEnv(g, path, query) == [site |-> "source", n |-> Len(g), g |-> g, path |-> path, query |-> query]
+\* what a run that has to be resolved from `want` = [tmpl, query] must receive: by the statement
+\* (out, unless open) and by the code model (l1)
+LifeExp(want, g, path) ==
+    LET e == SourceEnv(g, path, want.query)
+        r == Scan(want.tmpl, e)
+    IN [out |-> OutChars(r), open |-> r.amb \/ r.undef \/ Straddle(r, e), l1 |-> L1(want.tmpl, e)]
 
 \* ------------------------------------------------------------------ bounded model
 Pieces == {"a", "/", "0", "1", "$G1", "$G2", "$G10", "$G11", "$MTX_PATH", "$MTX_QUERY", "$", "$G", "$Gx"}
